@@ -14,25 +14,22 @@
    above the tail = reverse diffs of the chain, every stored journal that New would
    accept is a faithful image of a chain whose histories are durable.
 
-   FULL STATEMENT (crash_consistent): for every history of Update / Commit / Journal /
-   reopen / crash operations from the empty database with well-formed transitions, every
-   crash point of the next operation and every cut: open succeeds and the result is
-   Consistent.  PROVED here: (1) that conclusion from PInv at the crash point
-   (C20_crash_consistent_partial), PInv / LInv of the empty database, PInv kept by every
-   cut and by the events of recovery itself, every reopened database is live
-   (C20_reopened_is_live); (2) ONE OPERATION AHEAD of any live database: every crash
-   point of the merge of one diff layer (the step Update and Commit are made of) and of
-   Journal reopens consistently and live again (C20_commit_crash_consistent,
-   C20_journal_crash_consistent); (3) alignment, idempotence, journal matching and
-   persistence of the acknowledged state for ALL worlds.  MISSING for the full statement:
-   the live invariant after a COMPLETED merge / Update / Commit / Recover (so that the
-   one-step theorems chain along a history without an intervening reopen), the events
-   of Recover, and the discharge of the journal-freshness premise from a history-level
-   "no state root recurs" hypothesis; these are checked on every generated history by
-   the correspondence and the Go oracle only.  With the Recover of the code before
-   /repo 045cec3993 (jc_legacy_recover) the full statement is FALSE of the faithful
-   model and of the code: C20_recover_stale_journal_refuted. *)
-From GV Require Import Lib.Tactics PathDB.History PathDB.HistoryProofs PathDB.Journal PathDB.JournalProofs.
+   FULL STATEMENT, PROVED (C20_crash_consistent): for every history of Update / Commit /
+   Journal / Recover / clean reopen / crash-and-reopen operations from the empty database
+   (Recover as in /repo since 86d61ccd46: the shutdown journal is dropped before the
+   first revert, jc_recover = 2) whose transitions are well-formed on the head state and
+   whose new state roots are fresh w.r.t. the roots the database still knows (persisted
+   root, disk root, live diff layers, persisted roots of stored journals), the history
+   never gets stuck on a reopen, and at EVERY crash point of the next operation (before
+   its first and after each of its persistence events) EVERY cut reopens successfully
+   into a Consistent database.  Building blocks kept as theorems: the persistent
+   invariant suffices (C20_reopen_from_invariant), one operation ahead
+   (C20_commit_crash_consistent, C20_journal_crash_consistent), alignment, idempotence,
+   journal matching, persistence of the acknowledged state for ALL worlds.  REFUTED for
+   the two earlier versions of Recover: journal never dropped (before 045cec3993:
+   C20_recover_stale_journal_refuted) and journal dropped after the revert loop
+   (045cec3993: C20_recover_late_drop_refuted). *)
+From GV Require Import Lib.Tactics PathDB.History PathDB.HistoryProofs PathDB.Journal PathDB.JournalProofs PathDB.JournalHist.
 Local Open Scope N_scope.
 
 (* from every persistent state with PInv, every crash cut reopens successfully; the
@@ -41,13 +38,13 @@ Local Open Scope N_scope.
    head equals the state id, the retained histories are those of [l], restored diff
    layers are well-formed, the persistent part satisfies PInv again (so does every
    intermediate state of the recovery: a crash while recovering is covered) *)
-Theorem C20_crash_consistent_partial : forall w lp c,
+Theorem C20_reopen_from_invariant : forall w lp c,
   PInv w lp ->
   exists evs w' l, open (crash c w) = (evs, Done w') /\ Consistent w' l lp /\
                    (forall e, In e evs -> PInv (snd e) lp) /\
                    (journal_used (crash c w) = None -> l = lp).
 Proof. exact crash_open_consistent. Qed.
-Print Assumptions C20_crash_consistent_partial.
+Print Assumptions C20_reopen_from_invariant.
 
 Theorem C20_init_invariant : forall c jf, PInv (init_world c jf 0) [] /\ LInv (init_world c jf 0) [] [].
 Proof. intros. split; [apply init_pinv|apply init_linv]. Qed.
@@ -156,6 +153,44 @@ Print Assumptions C20_recover_stale_journal_refuted.
    same history reopens at every crash point of the Recover and after it *)
 Example C20_recover_fixed_witness : ex_fixed_check = true.
 Proof. vm_compute. reflexivity. Qed.
+
+(* THE PROPERTY over all histories.  [wf_hist] / [wf_op]: every Update's transition is
+   well-formed on the head state ([wf_tr], C17) and its root is fresh ([fresh_root]); a
+   crash operation interrupts an Update, Commit, Journal or Recover. *)
+Theorem C20_crash_consistent : forall c jf os o,
+  jc_recover c = 2 ->
+  wf_hist (init_world c jf 0) os ->
+  exists w, run (init_world c jf 0) os = Some w /\
+    (wf_op w o ->
+     forall wc, In wc (crash_points w o) -> forall ct,
+       exists evs w' l lp, open (crash ct wc) = (evs, Done w') /\ Consistent w' l lp).
+Proof. exact crash_consistent. Qed.
+Print Assumptions C20_crash_consistent.
+
+(* the invariants behind it: every operation keeps the live invariant and puts the
+   persistent invariant at each of its crash points; every crash + reopen restores the
+   live invariant *)
+Theorem C20_step_invariant : forall w o,
+  WInv w -> wf_op w o ->
+  (forall wc, In wc (crash_points w o) -> CP wc) /\ exists w', step w o = Some w' /\ WInv w'.
+Proof. exact step_ok. Qed.
+Print Assumptions C20_step_invariant.
+
+Theorem C20_crash_point_reopens : forall w c,
+  CP w -> exists evs w' l lp, open (crash c w) = (evs, Done w') /\ Consistent w' l lp /\ WInv w'.
+Proof. exact cp_reopen. Qed.
+Print Assumptions C20_crash_point_reopens.
+
+(* FINDING 2: dropping the journal AFTER the revert loop (045cec3993) is too late: two
+   Recovers interrupted by crashes leave the stale journal in place until the persisted
+   state is back on its disk root on another fork; New then restores the journal's disk
+   layer (root 4, id 4) on top of the histories of the new fork: the newest retained
+   history does not lead to the disk root.  With the drop before the first revert the
+   same history recovers aligned. *)
+Theorem C20_recover_late_drop_refuted :
+  ex_late_check 1 = Some (false, 4, 4) /\ ex_late_check 2 = Some (true, 3, 3).
+Proof. split; vm_compute; reflexivity. Qed.
+Print Assumptions C20_recover_late_drop_refuted.
 
 (* a history with buffered layers in a journal, a restart, tail pruning and a crash in
    the middle of a flush with the older tail: the model recovers to state 3 *)
